@@ -184,7 +184,7 @@ func c03Guard(p *Program, r *Report) {
 						}
 					} else {
 						// early return: no dispatch; either one dead letter wrapping the envelope, or (root) a silent drop
-						if o.Class != "return" {
+						if !strings.HasPrefix(o.Class, "return") {
 							ok = false
 						}
 						if len(o.Events) > 1 || (len(o.Events) == 1 && o.Events[0] != "deadletter(envelope)") {
